@@ -184,21 +184,9 @@ def verify_add_status(ctx, classes):
                     else:
                         goal = as_formula(it, it.values_equal(v1, v2))
                     p.oblige('%s#refines:%s' % (label, n), goal, kind='refinement')
-            paths = verify.run_paths(it, verify.Explorer(), run, label)
-            res.paths += len(paths)
-            res.cases += 1
-            for p in paths:
-                res.obligations.extend(p.obligations)
-                if getattr(p, 'outcome', None) == 'normal':
-                    res.normal_paths += 1
+            ctx.add_exploration(label, run, res, target='statuses.add_status')
     finally:
         it.mode.target = saved
-        ctx.globals.restore()
-    ctx.results.append(res)
-    ctx.obligations.extend(res.obligations)
-    if not res.obligations or res.normal_paths == 0:
-        from ..runner import CheckerError
-        raise CheckerError('add_status refinement generated no obligations')
 
 
 _bases = {}
